@@ -15,6 +15,7 @@ pub mod c09_model;
 pub mod c10;
 pub mod c11;
 pub mod c12;
+pub mod c17;
 pub mod c18;
 pub mod c18_proc;
 pub mod c19;
@@ -22,7 +23,7 @@ pub mod c19_gen;
 pub mod c20;
 
 pub fn all() -> Vec<PropDef> {
-    vec![c01::def(), c02::def(), c03::def(), c04::def(), c05::def(), c06::def(), c08::def(), c09::def(), c10::def(), c11::def(), c12::def(), c18::def(), c19::def(), c20::def()]
+    vec![c01::def(), c02::def(), c03::def(), c04::def(), c05::def(), c06::def(), c08::def(), c09::def(), c10::def(), c11::def(), c12::def(), c17::def(), c18::def(), c19::def(), c20::def()]
 }
 
 /// entry point of `tvv child …` (used by the checks that need process isolation)
